@@ -53,15 +53,15 @@ type FnDef struct {
 }
 
 type Stmt struct {
-	K    string  `json:"k"` // expr | if | empty | func | while | break | continue (the last two inside a while body only)
-	E    *Expr   `json:"e,omitempty"`
-	Fn   *FnDef  `json:"fn,omitempty"` // func
+	K  string `json:"k"` // expr | if | empty | func | while | break | continue (the last two inside a while body only)
+	E  *Expr  `json:"e,omitempty"`
+	Fn *FnDef `json:"fn,omitempty"` // func
 	// while: `Ctr = 0; while Ctr < Bound { Ctr = Ctr + 1; Then }` (Ctr a counter variable, Bound 0..3)
-	Ctr   string `json:"ctr,omitempty"`
-	Bound int64  `json:"bound,omitempty"`
-	Cond *Expr   `json:"cond,omitempty"`
-	Then []*Stmt `json:"then,omitempty"`
-	Else []*Stmt `json:"else,omitempty"` // used when HasElse
+	Ctr   string  `json:"ctr,omitempty"`
+	Bound int64   `json:"bound,omitempty"`
+	Cond  *Expr   `json:"cond,omitempty"`
+	Then  []*Stmt `json:"then,omitempty"`
+	Else  []*Stmt `json:"else,omitempty"` // used when HasElse
 	// HasElse: 0 none, 1 else-block, 2 else-if (Else holds exactly one `if` statement)
 	HasElse int    `json:"has_else,omitempty"`
 	Sep     string `json:"sep,omitempty"` // text between this statement and the next one
@@ -544,7 +544,7 @@ type evaluator struct {
 	funcsInHole, loopsInHole int
 	// ctl: 1 after a break, 2 after a continue, until the enclosing loop takes it; jumps: how many were taken
 	ctl, jumps, loopDepth int
-	nextID, pushes         int
+	nextID, pushes        int
 	// statistics for the non-triviality rule
 	holes     int
 	maxDepth  int
@@ -969,7 +969,7 @@ func envString(env map[string]Val) string {
 // generator
 
 type gen struct {
-	funcs map[string]int // function name -> number of parameters, as defined so far
+	funcs    map[string]int // function name -> number of parameters, as defined so far
 	t        *rapid.T
 	budget   int             // remaining AST nodes
 	defined  map[string]bool // variables definitely assigned at this point
@@ -1244,6 +1244,19 @@ func (g *gen) whileStmt() *Stmt {
 		if g.tdepth < g.maxT && rapid.IntRange(0, 2).Draw(g.t, "jumpInHole") == 0 {
 			// the jump sits in a hole of a template that is being assembled inside the loop body
 			h := &Hole{Pct: rapid.Bool().Draw(g.t, "jpct"), Body: []*Stmt{ifst}}
+			if rapid.IntRange(0, 2).Draw(g.t, "innerLoopFirst") == 0 {
+				// a complete loop of its own runs in the same hole before the jump is taken
+				other := ctrVars[0]
+				if other == st.Ctr {
+					other = ctrVars[1]
+				}
+				inner := &Stmt{K: "while", Ctr: other, Bound: int64(rapid.IntRange(0, 2).Draw(g.t, "innerBound")), In: g.ws(),
+					Sep: rapid.SampledFrom([]string{";", " ", "\n", "; "}).Draw(g.t, "innerSep")}
+				if rapid.Bool().Draw(g.t, "innerBody") {
+					inner.Then = []*Stmt{{K: "expr", E: g.assign(1), Sep: ";"}}
+				}
+				h.Body = []*Stmt{inner, ifst}
+			}
 			t := &Tmpl{D: rapid.IntRange(dBack, dRS).Draw(g.t, "jtd"), Parts: []*Part{{Lit: g.lit(dBack, 3, "jl")}, {Hole: h}, {Lit: g.lit(dBack, 3, "jr")}}}
 			t.Parts[0].Lit, t.Parts[2].Lit = g.lit(t.D, 3, "jl2"), g.lit(t.D, 3, "jr2")
 			wrapped = &Stmt{K: "expr", E: &Expr{K: "tmpl", T: t}, Sep: ";"}
